@@ -66,6 +66,7 @@ def run(ctx):
     for p in base:
         sets = {}
         usable = True
+        _its0, done_none = lvlib.iterations(impl.get(with_bound(p, "none"), []))
         for b in BOUNDS:
             q = with_bound(p, b)
             its, done = lvlib.iterations(impl.get(q, []))
@@ -73,6 +74,10 @@ def run(ctx):
             ctx.cov["traces_validated_against_impl"] += len(its)
             if not done or done[1] != "ok":
                 usable = False
+                if b != "none" and done and done[1] not in ("ok", "capped") and done_none and done_none[1] == "ok":
+                    # a bound only removes executions: it cannot make a passing model fail
+                    failures.append((q, "forbidden", f"run with bound {b} ends with {done[1]} in iteration {len(its)}, the "
+                                     f"unbounded run passes"))
                 if done and done[1] == "capped":
                     ctx.cov["skipped_for_size"] += 1
                 continue
